@@ -49,6 +49,7 @@ Inductive cop := CStart (tok : nat) | CStop | CClose.
 Record env := mkEnv { allocs : nat -> abuf; beh : nat -> list cop }.
 
 Record st := mkSt {
+  is_pipe : bool;           (* stream->type == UV_NAMED_PIPE (else UV_TCP / UV_TTY) *)
   ipc : bool;               (* uv_pipe_t with ipc = 1: recvmsg instead of read *)
   reading : bool;           (* UV_HANDLE_READING *)
   partial : bool;           (* UV_HANDLE_READ_PARTIAL *)
@@ -65,8 +66,8 @@ Record st := mkSt {
   ncb : nat                 (* read callbacks so far *)
 }.
 
-Definition init (is_ipc : bool) (o : list ans) : st :=
-  mkSt is_ipc false false false true false false None false false 0 o O O.
+Definition init (pipe is_ipc : bool) (o : list ans) : st :=
+  mkSt pipe is_ipc false false false true false false None false false 0 o O O.
 
 Inductive event :=
 | EPoll (raw : Z)                                   (* what epoll reported for the descriptor *)
@@ -81,26 +82,26 @@ Inductive event :=
 
 (* ---- field updates ---- *)
 Definition set_flags (s : st) (rdg par ef rdb act pin : bool) (cb : option nat) : st :=
-  mkSt (ipc s) rdg par ef rdb act pin cb (closing s) (closed s) (pos s) (oracle s)
+  mkSt (is_pipe s) (ipc s) rdg par ef rdb act pin cb (closing s) (closed s) (pos s) (oracle s)
        (nalloc s) (ncb s).
 Definition set_partial (s : st) (b : bool) : st :=
   set_flags s (reading s) b (eof s) (readable s) (active s) (pollin s) (rcb s).
 Definition set_readable (s : st) (b : bool) : st :=
   set_flags s (reading s) (partial s) (eof s) b (active s) (pollin s) (rcb s).
 Definition set_closing (s : st) : st :=
-  mkSt (ipc s) (reading s) (partial s) (eof s) (readable s) (active s) (pollin s) (rcb s)
+  mkSt (is_pipe s) (ipc s) (reading s) (partial s) (eof s) (readable s) (active s) (pollin s) (rcb s)
        true (closed s) (pos s) (oracle s) (nalloc s) (ncb s).
 Definition set_closed (s : st) : st :=
-  mkSt (ipc s) (reading s) (partial s) (eof s) (readable s) (active s) (pollin s) (rcb s)
+  mkSt (is_pipe s) (ipc s) (reading s) (partial s) (eof s) (readable s) (active s) (pollin s) (rcb s)
        (closing s) true (pos s) (oracle s) (nalloc s) (ncb s).
 Definition set_kernel (s : st) (p : Z) (o : list ans) : st :=
-  mkSt (ipc s) (reading s) (partial s) (eof s) (readable s) (active s) (pollin s) (rcb s)
+  mkSt (is_pipe s) (ipc s) (reading s) (partial s) (eof s) (readable s) (active s) (pollin s) (rcb s)
        (closing s) (closed s) p o (nalloc s) (ncb s).
 Definition bump_alloc (s : st) : st :=
-  mkSt (ipc s) (reading s) (partial s) (eof s) (readable s) (active s) (pollin s) (rcb s)
+  mkSt (is_pipe s) (ipc s) (reading s) (partial s) (eof s) (readable s) (active s) (pollin s) (rcb s)
        (closing s) (closed s) (pos s) (oracle s) (S (nalloc s)) (ncb s).
 Definition bump_cb (s : st) : st :=
-  mkSt (ipc s) (reading s) (partial s) (eof s) (readable s) (active s) (pollin s) (rcb s)
+  mkSt (is_pipe s) (ipc s) (reading s) (partial s) (eof s) (readable s) (active s) (pollin s) (rcb s)
        (closing s) (closed s) (pos s) (oracle s) (nalloc s) (S (ncb s)).
 
 (* READING off: flags &= ~READING; uv__io_stop(POLLIN); uv__handle_stop *)
@@ -211,9 +212,12 @@ Definition read_iter (E : env) (s : st) : st * list event * bool :=
         let nread := Z.max 1 (Z.min n (b_len b)) in
         let s2 := set_kernel s1 (pos s1 + nread) o' in
         let '(s3, evs) := call_read_cb E s2 nread (Some id) (pos s1) nread in
-        (* Return if we didn't fill the buffer, there is no more data to read. *)
+        (* Return if we didn't fill the buffer, there is no more data to read.
+           READ_PARTIAL only if (stream->type != UV_NAMED_PIPE): on a UNIX domain
+           socket a short read proves nothing (commit 34f0ffa) *)
         if nread <? b_len b
-        then (set_partial s3 true, ea :: ESys (b_len b) (Data nread) (pos s1) :: evs, false)
+        then ((if is_pipe s3 then s3 else set_partial s3 true),
+              ea :: ESys (b_len b) (Data nread) (pos s1) :: evs, false)
         else (s3, ea :: ESys (b_len b) (Data nread) (pos s1) :: evs, true)
     end.
 
